@@ -159,7 +159,9 @@ int32_t mon_jls_wr_source_def(struct jls_wr_s *self, const struct jls_source_def
 }
 int32_t mon_jls_wr_signal_def(struct jls_wr_s *self, const struct jls_signal_def_s *s) {
     Applied &a = begin_applied(OP_SIG); a.sig = s->signal_id; size_t i = applied.size() - 1;
-    return end_applied(i, jls_wr_signal_def(self, s));
+    int32_t rc = jls_wr_signal_def(self, s);
+    if (rc == 0 && s->signal_id < 256) mon_fsr_bits[s->signal_id] = jls_datatype_parse_size(s->data_type);   // the definition the writer accepted decides the sample size
+    return end_applied(i, rc);
 }
 int32_t mon_jls_wr_user_data(struct jls_wr_s *self, uint16_t chunk_meta, enum jls_storage_type_e st, const uint8_t *data, uint32_t size) {
     Applied &a = begin_applied(OP_USER); a.meta = chunk_meta; a.st = st; a.n = size; a.payload_len = size; a.payload_hash = fnv1a(data, size);
